@@ -467,3 +467,106 @@ def ob_whole_run_idle(sends: int, nfail: int, delay: int, c0: int, c1: int, c2: 
 
     run_loop(main)
     return res == ["done"] and not book["bad"]
+
+
+# ------------------------------------------------------------------------------------------------ the real run() loop, retry coming due at any moment
+# ob_runner_reach drives the runner's helpers from a MIRROR of run()'s drain loop; this one runs the real loop.  Time passes at every clock read
+# of the runner (symbolic jumps), so the retry's delay may have elapsed at any point between the failing tick and the idle check.
+
+
+class _JumpClock03:
+    def __init__(self, loop, jumps) -> None:
+        self.loop, self.jumps, self.k, self.extra = loop, list(jumps), 0, 0
+
+    def now(self) -> float:
+        return self.loop.time() + self.extra
+
+    def read(self) -> float:
+        self.extra += self.jumps[self.k % len(self.jumps)]     # the pattern repeats: the runner reads the clock once per tick and more
+        self.k += 1
+        return self.now()
+
+
+class _JumpView03:
+    def __init__(self, clock, jumping: bool) -> None:
+        self._c, self._j = clock, jumping
+
+    def time(self) -> float:
+        return self._c.read() if self._j else self._c.now()
+
+    monotonic = time
+    perf_counter = time
+
+
+from workflows.retry_policy import retry_policy as _rp03, stop_after_attempt as _saa03, wait_fixed as _wf03  # noqa: E402
+
+
+class _RetryOnce(Workflow):
+    @step
+    async def begin(self, ctx: Context, ev: StartEvent) -> CJob:
+        return CJob(n=1)
+
+    @step(retry_policy=_rp03(wait=_wf03(1), stop=_saa03(4)))
+    async def work(self, ctx: Context, ev: CJob) -> StopEvent:
+        self.runs.append(ctx.retry_info().retry_number)
+        if len(self.runs) <= self.nfail:
+            raise ValueError("transient")
+        return StopEvent(result=len(self.runs))
+
+
+NJ03 = 6
+
+
+@obligation(quick=200, thorough=500, partitions_quick=[f"j0 == {a} and j1 == {b}" for a in (0, 1, 2) for b in (0, 1, 2)],
+            what="whole run, real BasicRuntime and run() loop, a step that fails once and is retried after 1 s, the clock jumping by symbolic amounts at "
+                 "the runner's clock reads (so the retry may already be due when the failing tick has been processed, or while an idle check is "
+                 "pending): the run is never announced idle while the retry is outstanding (no WorkflowIdleEvent before the StopEvent) and "
+                 "completes with the retried result",
+            bounds={"failures": "1..2", "retry delay": "1 s", "jumps": "a repeating pattern of 6 reads x 0..2 s"})
+def ob_whole_run_retry_due_any_time(nfail: int, j0: int, j1: int, j2: int, j3: int, j4: int, j5: int) -> bool:
+    """
+    pre: 1 <= nfail <= 2
+    pre: 0 <= j0 <= 2 and 0 <= j1 <= 2 and 0 <= j2 <= 2 and 0 <= j3 <= 2 and 0 <= j4 <= 2 and 0 <= j5 <= 2
+    post: _
+    """
+    import asyncio
+
+    import workflows.plugins.basic as basic_mod
+    import workflows.runtime.types.step_function as sf_mod
+    from vlib.miniloop import MiniLoop
+
+    nfail = conc(nfail, 1, 2)
+    jumps = [conc(j, 0, 2) for j in (j0, j1, j2, j3, j4, j5)]
+    loop = MiniLoop()
+    clock = _JumpClock03(loop, jumps)
+    out: dict = {}
+
+    async def main():
+        wf = _RetryOnce(timeout=None, runtime=basic_mod.BasicRuntime())
+        wf.runs, wf.nfail = [], nfail
+        h = wf.run(run_id="r1")
+        seen = []
+
+        async def watch():
+            async for e in h.stream_events(expose_internal=True):
+                seen.append(e)
+
+        wt = asyncio.ensure_future(watch())
+        try:
+            out["end"] = ("result", await asyncio.wait_for(h, timeout=60))
+        except asyncio.TimeoutError:
+            out["end"] = ("HUNG", None)
+            wt.cancel()
+            return
+        except Exception as e:  # noqa: BLE001
+            out["end"] = ("failed", type(e).__name__)
+        await wt
+        out["idle_before_stop"] = any(isinstance(e, WorkflowIdleEvent) for e in seen)
+
+    saved = (basic_mod.time, sf_mod.time)
+    basic_mod.time, sf_mod.time = _JumpView03(clock, True), _JumpView03(clock, False)
+    try:
+        loop.run_until_complete(main())
+    finally:
+        basic_mod.time, sf_mod.time = saved
+    return out.get("end") == ("result", nfail + 1) and not out.get("idle_before_stop")
